@@ -35,7 +35,26 @@ func manyVerify(cand []byte, es []manyEntry) string {
 		for i, e := range es {
 			pks[i], msgs[i], hs[i] = e.pk, e.msg, e.h
 		}
-		return stable3(func() string { return boolAns(crypto.VerifyBLSSignatureManyMessages(pks, cand, msgs, hs)) })
+		// the verdict is taken three times; before the second time the hasher objects are left with pending input
+		// (Write without Reset) and before the third with a finalised state: the hashers are used through ComputeHash,
+		// which is specified to ignore the state the object is in
+		eval := 0
+		return stable3(func() string {
+			eval++
+			for _, h := range hs {
+				if h == nil {
+					continue
+				}
+				switch eval {
+				case 2:
+					_, _ = h.Write([]byte("pending input, never reset"))
+				case 3:
+					_, _ = h.Write([]byte("x"))
+					_ = h.SumHash()
+				}
+			}
+			return boolAns(crypto.VerifyBLSSignatureManyMessages(pks, cand, msgs, hs))
+		})
 	})
 }
 
